@@ -97,7 +97,8 @@ theorem merge_is_resultpath_then_outputpath (data ctx result state placed : Json
     mergeResult data ctx result state = applyPath placed ctx (pathArg state "OutputPath") := by
   simp [mergeResult, h]
 
-/-- Task: InputPath, Parameters, the task, ResultSelector, ResultPath (raw input), OutputPath. -/
+/-- Task: InputPath, Parameters, the task, ResultSelector, ResultPath (raw input), OutputPath.  (`ha`: the worker
+answers at `tEnd`, before the time limit in force — the earlier of the Task's own and the execution's.) -/
 theorem task_pipeline (env : Env) (fuel : Nat) (states : Json) (name fn : Str)
     (state data ctx input params v result out : Json) (retries : Nat) (st : St)
     (h : stateType state = S "Task")
@@ -105,7 +106,8 @@ theorem task_pipeline (env : Env) (fuel : Nat) (states : Json) (name fn : Str)
     (hi : applyPath data ctx (pathArg state "InputPath") = .ok input)
     (hp : tmplOpt env input ctx (fld state "Parameters") = .ok params)
     (tEnd : Rat)
-    (ha : taskArrival (env.delay fn params (bump st.counts (fn, params)).1) (taskDeadline state st.clock) st.clock
+    (ha : taskArrival (env.delay fn params (bump st.counts (fn, params)).1)
+        ((taskLimit (taskDeadline state st.clock) env.deadline st.clock).map (·.t)) st.clock
       = some (tEnd, false))
     (hv : taskReply env.maxData (env.task fn params (bump st.counts (fn, params)).1) = .ok v)
     (hs : tmplOpt env v ctx (fld state "ResultSelector") = .ok result)
@@ -140,7 +142,8 @@ theorem task_error_goes_to_handler (env : Env) (fuel : Nat) (states : Json) (nam
     (hi : applyPath data ctx (pathArg state "InputPath") = .ok input)
     (hp : tmplOpt env input ctx (fld state "Parameters") = .ok params)
     (tEnd : Rat)
-    (ha : taskArrival (env.delay fn params (bump st.counts (fn, params)).1) (taskDeadline state st.clock) st.clock
+    (ha : taskArrival (env.delay fn params (bump st.counts (fn, params)).1)
+        ((taskLimit (taskDeadline state st.clock) env.deadline st.clock).map (·.t)) st.clock
       = some (tEnd, false))
     (hv : taskReply env.maxData (env.task fn params (bump st.counts (fn, params)).1) = .err e msg) :
     runState env (fuel + 1) states name state data ctx retries st =
@@ -169,7 +172,8 @@ state's own Retry/Catch, with the fan-out state's raw input -/
 theorem fanout_failure_goes_to_handler (env : Env) (fuel : Nat) (states : Json) (name : Str)
     (state data ctx : Json) (e : Str) (c : Option Json) (f : Bool) (retries : Nat) (st : St) :
     ∃ msg, joinAndLeave env (fuel + 1) states name state data ctx retries (.error (.failed e c f)) st =
-      handleErr env fuel states name state data ctx retries e msg { st with fanFail := true } := by
+      handleErr env fuel states name state data ctx retries e msg
+        { st with fanFail := st.fanFail || decide (e ≠ execTimeoutName) } := by
   cases h : isTrue c with
   | false => exact ⟨[], by simp [joinAndLeave, h]⟩
   | true => exact ⟨S "m", by simp [joinAndLeave, h]⟩
@@ -314,20 +318,20 @@ theorem choice_no_match (input ctx : Json) (rs : List Json)
 theorem status_succeeded_iff_done (env : Env) (fuel : Nat) (asl input ctx : Json) (start : Str) (states : Json)
     (h1 : fldStr asl "StartAt" = some start) (h2 : fld asl "States" = some states) :
     (run env fuel asl input ctx).status = S "SUCCEEDED" ↔
-      ∃ d, (runFrom env fuel states start input ctx 0 {}).1 = .done d := by
+      ∃ d, (runFrom (env.forMachine asl) fuel states start input ctx 0 {}).1 = .done d := by
   unfold run runCore Outcome.ofRun
   simp only [h1, h2]
-  generalize runFrom env fuel states start input ctx 0 {} = r
+  generalize runFrom (env.forMachine asl) fuel states start input ctx 0 {} = r
   obtain ⟨r1, s1⟩ := r
   cases r1 <;> simp <;> decide
 
 theorem status_failed_iff_failed (env : Env) (fuel : Nat) (asl input ctx : Json) (start : Str) (states : Json)
     (h1 : fldStr asl "StartAt" = some start) (h2 : fld asl "States" = some states) :
     (run env fuel asl input ctx).status = S "FAILED" ↔
-      ∃ e c f, (runFrom env fuel states start input ctx 0 {}).1 = .failed e c f := by
+      ∃ e c f, (runFrom (env.forMachine asl) fuel states start input ctx 0 {}).1 = .failed e c f := by
   unfold run runCore Outcome.ofRun
   simp only [h1, h2]
-  generalize runFrom env fuel states start input ctx 0 {} = r
+  generalize runFrom (env.forMachine asl) fuel states start input ctx 0 {} = r
   obtain ⟨r1, s1⟩ := r
   cases r1 <;> simp <;> decide
 
